@@ -15,3 +15,9 @@ Lemma table_nonempty :
   Nat.leb 200 (length accesses) && Nat.leb 40 (length (filter is_write accesses)) &&
   existsb (String.eqb "Store.policyMu") (lock_names accesses) && existsb (String.eqb "Shard.mu") (lock_names accesses) = true.
 Proof. vm_compute. reflexivity. Qed.
+
+(* C10: no goroutine parks on a channel send while it certainly holds a lock (the table of this run) *)
+Definition holds_no_lock (s : string * list (string * lmode) * string) : bool :=
+  match snd (fst s) with [] => true | _ => false end.
+Lemma blocking_sites_hold_no_lock : forallb holds_no_lock blocking_sites = true /\ blocking_sites <> [].
+Proof. split; [vm_compute; reflexivity|discriminate]. Qed.
